@@ -155,6 +155,14 @@ struct TolG {
             q = e;
         }
     }
+    // imaginary-time value / sum rules: a dropped term loses at most |R|, a merged pole moves a term by at most |R|*shift*beta
+    double tau_tol(double beta, cd ref) const {
+        double tol = 0;
+        for (auto& r : Rsmall) tol += std::abs(r);
+        for (size_t k = 0; k < P.size(); ++k) tol += Rabs[k] * shift[k] * beta;
+        for (size_t k = 0; k < Pgroup.size(); ++k) tol += double(kgroup[k]) * thr;
+        return tol * 1.05 + 1e-11 * (1 + std::abs(ref));
+    }
     double dropped_sum() const { double s = 0; for (auto& r : Rsmall) s += std::abs(r); return s; }
     double at(cd z, cd ref) const {
         double tol = 0;
